@@ -394,6 +394,8 @@ def run(prop, tier, seed):
     run_macro_level(res, prop, tier, seed)
     if prop == "C12":
         push_order_level(res, tier, seed)
+        import check_entrylist
+        check_entrylist.level(res, tier, seed)
     return res.finish()
 
 
@@ -416,14 +418,72 @@ def push_order_level(res, tier, seed):
             elif perm == 2:
                 rnd.shuffle(p2["push"])
             runs.append((p2, cfg, f"C12-o{k}p{perm}"))
+    # bench_group modules whose subtree holds ONLY generic benchmarks (their tree
+    # node exists only once the generic instances are inserted), every order of
+    # the group entries
+    import itertools
+    for k in range({"quick": 6, "thorough": 30}[tier]):
+        line = [0]
+        def loc():
+            line[0] += rnd.randint(2, 7)
+            return {"file": "src/a.rs", "line": line[0], "col": 1}
+        depth = rnd.choice([1, 2])
+        mods = ["prog", "outer"] + (["inner"] if depth == 2 else [])
+        groups = [{"mods": mods[:-1], "raw": mods[-1], "name": rnd.choice(["renamed grp", mods[-1]]), **loc(),
+                   "opts": {"sample_count": 1, "sample_size": rnd.choice([1, 2])}, "has_opts": True}]
+        if depth == 2 and rnd.random() < 0.5:
+            groups.append({"mods": ["prog"], "raw": "outer", "name": "Outer", **loc(), "opts": {"ignore": False}, "has_opts": True})
+        ginst = []
+        gen_groups = []
+        for j in range(rnd.choice([1, 2])):
+            g = {"mods": mods, "raw": f"genfn{j}", "name": f"genfn{j}", **loc(), "opts": {}, "has_opts": rnd.random() < 0.5,
+                 "generic": {"kind": "plain", "rows": []}}
+            gi = len(groups) + len(gen_groups)
+            types, consts = rnd.choice([([0, 1], None), (None, [3, 1]), ([2, 0], [5, 4])])
+            if consts is None:
+                row = []
+                for t in types:
+                    ginst.append({"group": gi, "type": t, "cost": 100}); row.append(len(ginst) - 1)
+                g["generic"]["rows"].append(row)
+            else:
+                for t in (types if types is not None else [None]):
+                    row = []
+                    for c in consts:
+                        x = {"group": gi, "const": c, "cost": 100}
+                        if t is not None:
+                            x["type"] = t
+                        ginst.append(x); row.append(len(ginst) - 1)
+                    g["generic"]["rows"].append(row)
+            gen_groups.append(g)
+        groups += gen_groups
+        benches = []
+        if rnd.random() < 0.4:
+            benches.append({"mods": ["prog"], "raw": "plain", "name": "plain", **loc(), "kind": "plain",
+                            "opts": {"sample_count": 1, "sample_size": 1}, "has_opts": True, "cost": 100})
+        base_push = [["g", i] for i in range(len(groups))] + [["b", i] for i in range(len(benches))]
+        prog = {"id": f"go{k}", "crate": "prog", "clock": {"start": 1000, "read_step": 0, "precision": 1},
+                "benches": benches, "groups": groups, "ginst": ginst, "push": base_push, "builder": [], "entry": "main"}
+        cfg = progs.gen_config(rnd, prog, action=rnd.choice(["test", "list", "bench"]), paths=[])
+        cfg["filters"] = []
+        cfg["argv"] = [a for a in cfg["argv"] if a.startswith("--") or a in ("tsc", "kind", "name", "location", "terse")
+                       or a.replace(".", "").replace(",", "").isdigit() or a in ("true", "false")]
+        perms = list(itertools.permutations(base_push))
+        rnd.shuffle(perms)
+        for pi, perm in enumerate(perms[:6]):
+            p2 = copy.deepcopy(prog)
+            p2["push"] = [list(x) for x in perm]
+            runs.append((p2, cfg, f"C12-go{k}p{pi}"))
     by_name = {name: (prog, cfg) for prog, cfg, name in runs}
     path, recs = check_runner.execute(runs, "C12.order")
-    res.extra["push_order_level"] = {"programs": len(runs) // 3, "orders_each": 3, "runs": len(runs)}
+    res.extra["push_order_level"] = {"runs": len(runs), "note": "random programs in 3 orders each + generic-only bench_group modules in up to 6 orders each"}
     check_runner.validate_runs(res, "C12", path, "order:impl->spec", by_name, max_rounds=6)
 
 
 def replay(prop, path):
     obj = json.load(open(path))
+    if obj.get("level") == "entrylist":
+        import check_entrylist
+        return check_entrylist.replay(path)
     if (obj.get("program") or {}).get("backend") != "M":
         return check_runner.replay(prop, path)      # a run of the push-order level (back-end R)
     res = V.Result(prop, "quick", 0)
